@@ -1890,13 +1890,19 @@ class Method:
             self.input.fields.get("max_results", None),
             self.input.fields.get("page_size", None),
         )
-        page_field_size = next((field for field in page_fields if field), None)
+        # Use the first of the two that is present with an allowed type; a
+        # mistyped `max_results` must not hide a valid `page_size`.
+        page_field_size = next(
+            (
+                field
+                for field in page_fields
+                if field
+                and self._validate_paged_field_size_type(page_field_size=field)
+            ),
+            None,
+        )
 
         if not page_field_size:
-            return None
-
-        # Confirm whether the paged_field_size is an allowed type.
-        if not self._validate_paged_field_size_type(page_field_size=page_field_size):
             return None
 
         # Return the first repeated field.
